@@ -707,6 +707,26 @@ def gen_C09(rng, tier):
                 data = bits_to_bytes(le, (bits + [0] * (total_words * wordbits - len(bits)))[:cw_ * wordbits])
                 ops = [it[0] for it in items] + ['pos']
                 lines.append('S %s data=%s :: %s' % (cfg, hexs(data), ' ; '.join(ops)))
+    # skips (and reads) that land exactly on the end of the data, from every distance: wholly inside
+    # the data, so they succeed on a strict backend; one bit more must fail there
+    for cfg in reader_cfgs(quick):
+        W = rw_of(cfg)
+        wordbits = 64 if is_bit(cfg) else W
+        cap = peek_cap(cfg)
+        for nwords in (1, 2, 3, 5):
+            total = nwords * wordbits
+            starts = sorted(set([0, 1, wordbits - 1, wordbits, wordbits + 1, total - wordbits, total - 1, total] +
+                                [rng.randrange(0, total + 1) for _ in range(2 if quick else 12)]))
+            for p in starts:
+                if p < 0 or p > total:
+                    continue
+                data = rand_bytes(rng, total // 8, 'rand')
+                pre = rng.choice(['rs %d' % p, 'rs %d ; rp %d' % (p, min(cap, max(1, min(total - p, cap)))) if p < total else 'rs %d' % p,
+                                  'seek %d' % p])
+                lines.append('S %s data=%s :: %s ; pos ; rs %d ; pos ; rs 0 ; pos ; rb 1 ; pos' % (cfg, hexs(data), pre, total - p))
+                lines.append('S %s data=%s :: %s ; pos ; rs %d ; pos' % (cfg, hexs(data), pre, total - p + 1))
+                if total - p <= 64:
+                    lines.append('S %s data=%s :: %s ; rb %d ; pos ; rb 0 ; rs 0 ; pos' % (cfg, hexs(data), pre, total - p))
     return lines
 
 
